@@ -50,11 +50,11 @@ def siteOf (r : Row) (callee : Name) : Option Nat :=
     | .fail k c => if c = callee && holds (atomVal r d) e.guard then some k else none
     | _ => none
 
-def render (r : Row) (noMatches noRenames : Bool) : String :=
+def render (r : Row) (noMatches noRenames : Bool) (serFails : Bool := false) : String :=
   match outcome r with
   | none => "c19 no-handler"
   | some o =>
-    let c := docCtxOf r.cmd noMatches noRenames
+    let c := { docCtxOf r.cmd noMatches noRenames with serFails := serFails }
     let docs := o.stdout.length
     let js := (o.stdout.filter Payload.isJson).length
     let (keys, optk) := match o.stdout with
@@ -66,25 +66,35 @@ def render (r : Row) (noMatches noRenames : Bool) : String :=
       | _ => ([], [])
     let conf := match o.stdout with
       | [p] => if (expectedTypes r.cmd).isEmpty || some p != emittedDoc r.cmd then "-"
-               else showBit (conformsCmd r.cmd noMatches noRenames)
+               else showBit (conformsCmdIn r.cmd c)
       | _ => "-"
     s!"c19 docs={docs} json={js} failed={showBit o.failed} exit0={showBit o.exitZero} ok={showBit (succeeded r o)} conf={conf} keys={names keys} opt={names optk} hunk_replace={memberPres c n!"MatchHunk" n!"replace"} rename_new_path={memberPres c n!"Rename" n!"new_path"} performed={names o.performed}"
 
 def asciiOf (b : Bytes) : String := String.ofList (b.map fun c => Char.ofNat c.toNat)
 
-def dispatch : List String → Option String
-  | ["c19row", cmd, json, quiet, dry, yes, preview, noRegex, noMatches, noRenames, failCallee] =>
+def row (fs : List String) (serFails : Bool) : Option String :=
+  match fs with
+  | [cmd, json, quiet, dry, yes, preview, noRegex, noMatches, noRenames, failCallee] =>
     match (ofHex cmd).bind (fun b => cmd? (asciiOf b)),
           bit? json, bit? quiet, bit? dry, bit? yes, bit? preview, bit? noRegex, bit? noMatches, bit? noRenames with
     | some cmd, some json, some quiet, some dryRun, some yes, some preview, some noRegex, some noMatches, some noRenames =>
       let r0 : Row := { cmd, json, quiet, dryRun, yes, preview, noRegex, planEmpty := noMatches && noRenames, failAt := none }
-      if failCallee == "-" then some (render r0 noMatches noRenames)
+      if failCallee == "-" then some (render r0 noMatches noRenames serFails)
       else match ofHex failCallee with
         | none => some "bad-req"
         | some callee => match siteOf r0 (nameOfBytes callee) with
           | none => some "c19 no-such-site"
-          | some k => some (render { r0 with failAt := some k } noMatches noRenames)
+          | some k => some (render { r0 with failAt := some k } noMatches noRenames serFails)
     | _, _, _, _, _, _, _, _, _ => some "bad-req"
+  | _ => some "bad-req"
+
+/-- `c19row <10 fields>` (every path valid UTF-8) or `c19rowx <10 fields> <serFails>` -/
+def dispatch : List String → Option String
+  | "c19row" :: fs => row fs false
+  | "c19rowx" :: fs =>
+    match fs.getLast?.bind bit? with
+    | some sf => row fs.dropLast sf
+    | none => some "bad-req"
   | _ => none
 
 end OpsOutput
